@@ -8,7 +8,7 @@
    offered to Build (speculative frame) and then to Process; the observations of the run are
    rendered as the reference's output: per event (result code, frame assigned by Build), and the
    blocks (frame, Atropos, cheaters). *)
-From Coq Require Import NArith List Bool.
+From Coq Require Import NArith List Bool Lia ZifyN ZifyNat.
 From LV Require Import lib.Bytes model.Codec model.VecIndex model.Abft model.AbftRun spec.ElectionSpec
   proofs.BftMono proofs.BftRun proofs.BftMain proofs.BftAccept proofs.BftProps proofs.LinkVals.
 Import ListNotations.
@@ -55,8 +55,11 @@ Definition id_fresh (x : N) : Prop :=
 Definition ids_fresh (D : list fev) : Prop := forall e, In e D -> id_fresh (eid (fe e)).
 
 (* the statement: on validator lists in canonical form with total weight < 2^31 (LinkVals.vals_ok)
-   and inputs whose ids are not temporary ids, the model run equals the reference on every valid run *)
-Definition link_side (vals : list (N * N)) (D : list fev) : Prop := vals_ok vals /\ ids_fresh D.
+   and inputs whose ids are not temporary ids (and fewer than 2^192 events: Build's counter is written
+   into 24 bytes, the repaired FillBytes panics beyond), the model run equals the reference on every
+   valid run *)
+Definition link_side (vals : list (N * N)) (D : list fev) : Prop :=
+  vals_ok vals /\ ids_fresh D /\ N.of_nat (length D) < 2 ^ 192.
 
 Definition impl_refines_spec_on (side : list (N * N) -> list fev -> Prop) (run : impl_model) : Prop :=
   forall vals D, side vals D -> valid_run vals D -> run vals D = reference vals D.
@@ -74,18 +77,22 @@ Definition C01_full_on (side : list (N * N) -> list fev -> Prop) (run : impl_mod
     prefix (snd (run vals D1)) (snd (run vals D2)) /\
     (incl D2 D1 -> snd (run vals D1) = snd (run vals D2)).
 
-Lemma link_side_sub vals D1 D2 : link_side vals D2 -> incl D1 D2 -> link_side vals D1.
-Proof. intros [V F] I. split; [exact V|]. intros e He. apply F, I, He. Qed.
+Lemma link_side_sub vals D1 D2 : link_side vals D2 -> incl D1 D2 -> NoDup (ids_of D1) -> link_side vals D1.
+Proof.
+  intros [V [F L]] I ND. split; [exact V|]. split; [intros e He; apply F, I, He|].
+  assert (NDD : NoDup D1) by (apply (NoDup_map_inv (fun e => eid (fe e))); exact ND).
+  pose proof (NoDup_incl_length NDD I). lia.
+Qed.
 
 Theorem C01_on_from_refinement (side : list (N * N) -> list fev -> Prop) (run : impl_model) :
-  (forall vals D1 D2, side vals D2 -> incl D1 D2 -> side vals D1) ->
+  (forall vals D1 D2, side vals D2 -> incl D1 D2 -> NoDup (ids_of D1) -> side vals D1) ->
   impl_refines_spec_on side run -> C01_full_on side run.
 Proof.
   intros Hsub Href vals D1 D2 S2 V2 Hincl Hnd Hpf.
   pose proof V2 as [A2 Hff].
   pose proof (acceptance_order_independent vals D2 D1 A2 Hincl Hnd Hpf) as A1.
   pose proof (valid_run_sub vals D1 D2 V2 A1 Hincl) as V1.
-  pose proof (Hsub vals D1 D2 S2 Hincl) as S1.
+  pose proof (Hsub vals D1 D2 S2 Hincl Hnd) as S1.
   rewrite (Href vals D1 S1 V1), (Href vals D2 S2 V2).
   split; [rewrite reference_codes; exact A1|].
   split; [apply reference_prefix; assumption|].
